@@ -117,6 +117,10 @@ def scenarios(ctx):
                    budgets=dict(pub=3, ack=3, setwin=1)))
     out.append(Std('pub-reenter-q0', profile='pub', mode='sync', init=CONNECTED, windows=(1, 2), pub_qos=(0, 1), reenter=('ok:pub0>pub',),
                    budgets=dict(pub=3, ack=2)))
+    # publish() called from the callback of connect() of a resumed session with messages carried over
+    out.append(Std('pub-reenter-connected', profile='pub', mode='sync', init=CONNECTED_P, connects=[(False, 0, 4)],
+                   reconnects=[(False, 0, 4)], windows=(1, 2), pub_qos=(0, 1, 2), reenter=('ok:connect@1>pub1',),
+                   budgets=dict(pub=3, ack=2, lose=1, rebuild=1, connect=1, connack=1, setwin=1)))
     out.append(Std('pub-wrap', profile='pub', mode='sync', init=CONNECTED + (('setwin', 0, 2),), pub_qos=(0, 1, 2),
                    budgets=dict(pub=4, ack=1, setid=1)))
     out.append(Std('pubsub-persist-w3', profile='pubsub', mode='sync', init=CONNECTED_P + (('setwin', 0, 3),),
